@@ -233,6 +233,46 @@ def ts_is_normalised_image(s):
     return False
 
 
+MUTABLE_LEAF = (list, dict, bytearray, np.ndarray)
+
+
+def mutables(x, path='', depth=0, out=None):
+    """(path, object) for every mutable object reachable from x's attributes: objects with a __dict__ (Timestamp,
+    MeasurementDetails, ...), lists, dicts, bytearrays, numpy arrays.  Enum members, tuples and scalars are immutable."""
+    if out is None:
+        out = []
+    if depth > 6 or x is None or isinstance(x, (bool, int, float, str, bytes, np.generic, _PyIntEnum)):
+        return out
+    if isinstance(x, tuple):
+        for i, e in enumerate(x):
+            mutables(e, '%s[%d]' % (path, i), depth + 1, out)
+        return out
+    if isinstance(x, MUTABLE_LEAF):
+        if path:
+            out.append((path, x))
+        if isinstance(x, (list,)):
+            for i, e in enumerate(x[:16]):
+                mutables(e, '%s[%d]' % (path, i), depth + 1, out)
+        elif isinstance(x, dict):
+            for k, e in x.items():
+                if not str(k).startswith('_'):
+                    mutables(e, '%s.%s' % (path, k), depth + 1, out)
+        return out
+    if hasattr(x, '__dict__') and not isinstance(x, type):
+        if path:
+            out.append((path, x))
+        for k, e in vars(x).items():
+            if not k.startswith('_'):
+                mutables(e, '%s.%s' % (path, k), depth + 1, out)
+    return out
+
+
+def shared_mutables(a, b):
+    """mutable sub-objects that two different parsed objects have in common (by identity)"""
+    ia = {id(o): p for p, o in mutables(a)}
+    return [(p, ia[id(o)]) for p, o in mutables(b) if id(o) in ia]
+
+
 def is_explicit_refusal(cls, e):
     """A container refusing to serialise content it did not understand: the guard in the container's own
     pack() raising TypeError('... must be set to a class decorated with ...')."""
@@ -370,6 +410,30 @@ def evaluate(key, cls, b, offsets=OFFSETS_QUICK, want_record=False):
         except Exception as e:
             if not any(l == 'pack-into-raises' for l, _, _ in V):
                 V.append(('pack-into-raises', exc_name(e), 'pack(buffer, %d) raises %s' % (off, exc_name(e))))
+    # -- pack()/pack(buffer, offset) must leave the object as it was ------------------------------------------
+    try:
+        v_after = fields(o)
+        d = first_diff(v, v_after)
+        if d:
+            V.append(('pack-mutates-object', d.split('[')[0].lstrip('.'), 'after pack() / pack(buffer, offset) the object differs in %s: %s -> %s' % (d, _at(v, d), _at(v_after, d))))
+    except Exception as e:
+        V.append(('pack-mutates-object', exc_name(e), 'reading the attributes after pack() raises %s' % exc_name(e)))
+    # -- unpack must not keep a reference to the caller's buffer ---------------------------------------------------
+    try:
+        cb = bytearray(b)
+        ob, nb = do_unpack(cls, cb, 0)
+        vb0 = fields(ob)
+        for i in range(len(cb)):
+            cb[i] ^= 0xFF
+        vb1 = fields(ob)
+        d = first_diff(vb0, vb1) or first_diff(v, vb0)
+        if d:
+            V.append(('unpack-retains-buffer', d.split('[')[0].lstrip('.'), 'field %s of an object parsed from a bytearray changes when the caller later overwrites that bytearray' % d))
+        shared = shared_mutables(o, ob)
+        if shared:
+            V.append(('objects-share-mutable-state', shared[0][0].split('[')[0].lstrip('.'), 'two objects parsed from the same bytes share the mutable sub-object %s (%s)' % shared[0]))
+    except Exception as e:
+        pass
     # classify a first-step size mismatch: the input was not in canonical form (over-long declared length,
     # NUL-padded string ...) but its serialisation is shorter and is a fixed point of unpack/pack
     if b1 is not None and len(b1) < n and not any(l in ('reparse-raises', 'repack-raises', 'repack-bytes-differ', 'reparse-consumed-differs') for l, _, _ in V):
@@ -903,6 +967,124 @@ def run_key(key, seed, tier, corpus=()):
     return out
 
 
+def cross_objects(seed, tier):
+    """Shared mutable state and aliasing ACROSS objects: messages of all classes are parsed and serialised interleaved,
+    over several epochs with a different class order each time; every object parsed earlier is kept and, after each
+    batch of another class, its field values and its pack() bytes must still be what they were right after it was
+    parsed, and no two kept objects may share a mutable sub-object."""
+    tab = class_table()
+    thorough = tier == 'thorough'
+    keys = [k for k in tab if '[' not in k]
+    # a few container sub-payloads as well
+    keys += [k for k in tab if '[' in k][::7]
+    rng = random.Random(seed * 7919 + 17)
+    per_key = 10 if thorough else 5
+    epochs = 4 if thorough else 3
+    pools = {}
+    for key in keys:
+        cls, seeds = tab[key]
+        r2 = random.Random((seed * 1000003) ^ zlib.crc32(key.encode()))
+        desc = DESCS.get(key)
+        ins = []
+        try:
+            if desc is not None:
+                ins = gen_inputs_desc(cls, desc, r2, 'quick', 40, bool(desc.get('greedy')))
+        except Exception:
+            ins = []
+        if len(ins) < 12:
+            more, _ = gen_inputs(key, cls, seeds, r2, 'quick', 40)
+            ins = ins + more
+        ok = []
+        for b in ins:
+            if try_parse(cls, b) is not None:
+                ok.append(b)
+            if len(ok) >= per_key * epochs * 3:
+                break
+        pools[key] = ok
+    kept = []          # dicts: key, hex, obj, fields, pack, epoch
+    out = {'key': '<cross-object>', 'objects': 0, 'rechecks': 0, 'violations': {}, 'epochs': epochs, 'classes': len(keys)}
+    reported = set()
+
+    def snapshot(o):
+        try:
+            pk = do_pack(o)
+            pk = bytes(pk).hex() if isinstance(pk, (bytes, bytearray)) else 'non-bytes'
+        except Exception as e:
+            pk = 'raise:' + exc_name(e)
+        return fields(o), pk
+
+    def recheck(culprit_key, culprit_inputs):
+        for k in kept:
+            if id(k) in reported:
+                continue
+            out['rechecks'] += 1
+            f, pk = snapshot(k['obj'])
+            d = first_diff(k['fields'], f)
+            if d or pk != k['pack']:
+                reported.add(id(k))
+                what = ('field %s changed from %s to %s' % (d, _at(k['fields'], d), _at(f, d))) if d else 'pack() now gives different bytes'
+                # which single input of the other class does it?
+                single = None
+                try:
+                    cls_a, _ = tab[k['key']]
+                    cls_b, _ = tab[culprit_key]
+                    for hb in culprit_inputs:
+                        oa, _n = do_unpack(cls_a, bytes.fromhex(k['hex']), 0)
+                        fa, pa = snapshot(oa)
+                        ob, _n = do_unpack(cls_b, bytes.fromhex(hb), 0)
+                        do_pack(ob)
+                        fa2, pa2 = snapshot(oa)
+                        if first_diff(fa, fa2) or pa != pa2:
+                            single = hb
+                            break
+                except Exception:
+                    pass
+                sig = 'object-changes-after-other-parse|' + ((d or 'pack').split('[')[0].lstrip('.'))
+                vk = k['key'] + '|' + sig
+                if vk not in out['violations']:
+                    out['violations'][vk] = {'key': k['key'], 'law': 'object-changes-after-other-parse', 'detail': (d or 'pack').split('[')[0].lstrip('.'),
+                                             'hex': k['hex'], 'then_key': culprit_key, 'then_hex': single or (culprit_inputs[0] if culprit_inputs else ''),
+                                             'text': 'a %s parsed earlier (epoch %d) changed after %s messages were parsed and serialised: %s' % (k['key'], k['epoch'], culprit_key, what),
+                                             'count': 1}
+                else:
+                    out['violations'][vk]['count'] += 1
+
+    ids = {}
+    for ep in range(epochs):
+        order = list(keys)
+        rng.shuffle(order)
+        for key in order:
+            cls, _ = tab[key]
+            pool = pools[key]
+            batch = pool[ep * per_key:(ep + 1) * per_key] or pool[:per_key]
+            used = []
+            for b in batch:
+                try:
+                    o, n = do_unpack(cls, b, 0)
+                except Exception:
+                    continue
+                f, pk = snapshot(o)
+                rec = {'key': key, 'hex': b.hex(), 'obj': o, 'fields': f, 'pack': pk, 'epoch': ep}
+                # aliasing with any object kept so far
+                for pth, m in mutables(o):
+                    if id(m) in ids and ids[id(m)][0] is not o:
+                        other = ids[id(m)]
+                        vk = key + '|objects-share-mutable-state|' + pth.split('[')[0].lstrip('.')
+                        if vk not in out['violations']:
+                            out['violations'][vk] = {'key': key, 'law': 'objects-share-mutable-state', 'detail': pth.split('[')[0].lstrip('.'), 'hex': b.hex(),
+                                                     'then_key': other[1], 'then_hex': other[2],
+                                                     'text': 'the mutable sub-object %s of a parsed %s is the same object as %s of a %s parsed earlier' % (pth, key, other[3], other[1]), 'count': 1}
+                        else:
+                            out['violations'][vk]['count'] += 1
+                    else:
+                        ids[id(m)] = (o, key, b.hex(), pth)
+                kept.append(rec)
+                used.append(b.hex())
+                out['objects'] += 1
+            recheck(key, used)
+    return out
+
+
 DESCS = {}
 
 
@@ -947,6 +1129,19 @@ def main():
                 same = False
             out.append([bits, es, en, bool(same)])
         print(json.dumps(out))
+    elif cmd == 'cross':
+        print(json.dumps(cross_objects(int(sys.argv[2]), sys.argv[3])), flush=True)
+    elif cmd == 'cross-one':
+        # replay: parse A, snapshot, parse+pack B, compare
+        tab = class_table()
+        ka, ha, kb, hb = sys.argv[2:6]
+        oa, _ = do_unpack(tab[ka][0], bytes.fromhex(ha), 0)
+        fa = fields(oa); pa = bytes(do_pack(oa)).hex()
+        ob, _ = do_unpack(tab[kb][0], bytes.fromhex(hb), 0)
+        do_pack(ob)
+        fa2 = fields(oa); pa2 = bytes(do_pack(oa)).hex()
+        print(json.dumps({'first': {'key': ka, 'fields_after_parse': fa, 'pack_after_parse': pa}, 'then_parsed': {'key': kb, 'hex': hb},
+                          'first_afterwards': {'fields': fa2, 'pack': pa2}, 'changed_field': first_diff(fa, fa2), 'shared': shared_mutables(oa, ob)}, indent=1, default=str))
     elif cmd == 'tsprobe':
         # what the translator needs to know about Timestamp / TimestampAdapter, obtained by evaluating the working tree:
         # the sentinel, the decode factor (unpack of (0 s, 1 ns)), and pack/unpack on a probe set that pins the shape
